@@ -13,7 +13,7 @@
     no imported modules / global variables (`call_mod` and the two tail loops of `var` fail).
   * `St` is the growing table (`lut.terms`) plus the list of compile errors (`errs`).
 -/
-import JaqVerif.Val.Basic
+import JaqVerif.Val.Num
 import JaqVerif.Core.Ast
 
 namespace Jaq.Core
@@ -239,11 +239,13 @@ def breakC (loc : Locals) (x : String) (st : St) : CTerm × St :=
   | some l => (.var (loc.total - l), st)
   | none => (.id, st.fail x)
 
-/-- literal: `n.parse::<isize>()` → `Int`, else `Num(text)` -/
+/-- literal: `n.parse::<isize>()` → `Int`, else `Num(text)` (which `V::from_num` reads at run
+time with `Num::from_str`).  Stated through the shared reader `Num.ofLiteral`: the literal is a
+machine integer exactly when that reader delivers `Num.int`. -/
 def numC (s : String) : CTerm :=
-  match Jaq.intOfDec s with
-  | some i => if Jaq.fitsIsize i then .int i else .num s
-  | none => .num s
+  match Jaq.Num.ofLiteral s with
+  | .int i => .int i
+  | _ => .num s
 
 /-- `sum_or`: right-nested `Math(insert x, Add, insert acc)` -/
 def sumOr (zero : CTerm) (terms : List CTerm) (st : St) : CTerm × St :=
@@ -291,7 +293,7 @@ mutual
     | .var x, st => let (c, st) := varC loc x st; (c, [], st)
     | .call name args, st =>
       let (ids, st) := itermList cx loc args st
-      if (name.splitOn "::").length > 1 then (.id, [], st.fail name) else callC cx loc name ids tr st
+      if isQualified name then (.id, [], st.fail name) else callC cx loc name ids tr st
     | .defs ds t, st =>
       let (loc', st) := compileDefs cx loc tr ds st
       term cx loc' tr t st
